@@ -126,7 +126,11 @@ package jobcontroller
 //@   ensures [C12] never-forced: forall n string :: jobtasks.forceReq[n] ==> old(jobtasks.forceReq[n])
 //@   ensures [C12] sweep-complete: result1 == nil && (killDueAt(rj, old(clock)) || parallelDecidedKill(rj)) ==>
 //@        (forall j int :: 0 <= j && j < len(tasks) && unfinished(tasks[j]) && notDeleting(tasks[j]) ==> jobtasks.delReq[jobtasks.taskName(tasks[j])])
+//@   ensures [C12] requests-only-grow: forall n string :: old(jobtasks.delReq[n]) ==> jobtasks.delReq[n]
+//@   ensures [C12] returns-the-job-with-its-identity-and-spec: result0 != nil && result0.Spec == rj.Spec && result0.Name == rj.Name && result0.Namespace == rj.Namespace && result0.UID == rj.UID
+//@        && execution.sameStrs(result0.Finalizers, rj.Finalizers) && result0.DeletionTimestamp == rj.DeletionTimestamp
 //@   ensures [C12] cached-job-untouched: *rj == old(*rj)
+//@   ensures clock >= old(clock)
 
 // ---- pending timeout -----------------------------------------------------------------------------------------------------
 
@@ -158,7 +162,11 @@ package jobcontroller
 //@        && (forall k int :: 0 <= k && k < len(rj.Status.Tasks) ==> result0.Status.Tasks[k].Name == rj.Status.Tasks[k].Name
 //@             && ((exists j int :: 0 <= j && j < len(tasks) && jobtasks.taskName(tasks[j]) == rj.Status.Tasks[k].Name && overdue(tasks[j], pendingNs(rj, cfg), old(clock)) && notDeleting(tasks[j]))
 //@                  ==> result0.Status.Tasks[k].DeletedStatus != nil && result0.Status.Tasks[k].DeletedStatus.Result == execution.TaskKilled && result0.Status.Tasks[k].DeletedStatus.Reason == "PendingTimeout"))
+//@   ensures [C12] requests-only-grow: forall n string :: old(jobtasks.delReq[n]) ==> jobtasks.delReq[n]
+//@   ensures [C12] returns-the-job-with-its-identity-and-spec: result0 != nil && result0.Spec == rj.Spec && result0.Name == rj.Name && result0.Namespace == rj.Namespace && result0.UID == rj.UID
+//@        && execution.sameStrs(result0.Finalizers, rj.Finalizers) && result0.DeletionTimestamp == rj.DeletionTimestamp
 //@   ensures [C12] cached-job-untouched: *rj == old(*rj)
+//@   ensures clock >= old(clock)
 
 // ---- force deletion ---------------------------------------------------------------------------------------------------
 
@@ -179,17 +187,22 @@ package jobcontroller
 //@        (exists j int :: 0 <= j && j < len(tasks) && jobtasks.taskName(tasks[j]) == n && stuck(tasks[j], forceNs(cfg), clock))
 //@   ensures [C12] stuck-tasks-force-deleted: result1 == nil && forceNs(cfg) > 0 && !rj.Spec.Template.ForbidTaskForceDeletion ==>
 //@        (forall j int :: 0 <= j && j < len(tasks) && stuck(tasks[j], forceNs(cfg), old(clock)) ==> jobtasks.delReq[jobtasks.taskName(tasks[j])])
+//@   ensures [C12] requests-only-grow: forall n string :: old(jobtasks.delReq[n]) ==> jobtasks.delReq[n]
+//@   ensures [C12] returns-the-job-with-its-identity-and-spec: result0 != nil && result0.Spec == rj.Spec && result0.Name == rj.Name && result0.Namespace == rj.Namespace && result0.UID == rj.UID
+//@        && execution.sameStrs(result0.Finalizers, rj.Finalizers) && result0.DeletionTimestamp == rj.DeletionTimestamp
 //@   ensures [C12] cached-job-untouched: *rj == old(*rj)
+//@   ensures clock >= old(clock)
 
 // ---- finalizer ------------------------------------------------------------------------------------------------------------
 
-// TEMPORARILY ASSUMED (status recomputation; see C09/C11): the Job keeps its identity, finalizers and deletion timestamp
-//@ extern func Reconciler.updateTaskRefStatus
-//@   params w, rj, tasks
+// status recomputation from the task list (UpdateJobTaskRefs, then syncJobStatusFromTaskRefs): the Job keeps its identity,
+// spec, finalizers and deletion timestamp
+//@ func Reconciler.updateTaskRefStatus
+//@   tags C09, C11, C13
+//@   requires w != nil && rj != nil && rj.Spec.Template != nil
 //@   modifies clock, wakeN, wakeKey, wakeAfter
 //@   ensures result0 != nil && result0.Name == rj.Name && result0.Namespace == rj.Namespace && result0.UID == rj.UID && result0.Spec == rj.Spec
 //@        && execution.sameStrs(result0.Finalizers, rj.Finalizers) && result0.DeletionTimestamp == rj.DeletionTimestamp
-//@   ensures result1 != nil ==> result0 == rj
 //@   ensures clock >= old(clock)
 
 //@ pure F() string = executiongroup.DeleteDependentsFinalizer
@@ -198,12 +211,13 @@ package jobcontroller
 //@ func Reconciler.handleFinishFinalizer
 //@   tags C13
 //@   requires w != nil && rj != nil
+//@   assumes template-was-defaulted-by-the-mutating-webhook: rj.Spec.Template != nil
 //@   modifies jobtasks.delReq, jobtasks.forceReq, clock, wakeN, wakeKey, wakeAfter
 //@   loop 1 invariant -1 <= rangeindex && rangeindex < len(rj.Status.Tasks)
 //@   loop 1 invariant forall k int :: 0 <= k && k < len(tasks) ==> (exists j int :: 0 <= j && j <= rangeindex && tasks[k] == jobtasks.taskCached(rj, rj.Status.Tasks[j].Name) && tasks[k] != nil)
 //@   loop 1 invariant forall j int :: 0 <= j && j <= rangeindex && !gone(rj, j) ==> inTasks(tasks, jobtasks.taskCached(rj, rj.Status.Tasks[j].Name))
 //@   loop 1 invariant len(tasks) == 0 ==> (forall j int :: 0 <= j && j <= rangeindex ==> gone(rj, j))
-//@   loop 2 invariant -1 <= rangeindex && rj != nil && execution.sameStrs(rj.Finalizers, old(rj.Finalizers)) && rj.DeletionTimestamp == old(rj.DeletionTimestamp) && rj.Name == old(rj.Name)
+//@   loop 2 invariant -1 <= rangeindex && rj != nil && execution.sameStrs(rj.Finalizers, old(rj.Finalizers)) && rj.DeletionTimestamp == old(rj.DeletionTimestamp) && rj.Name == old(rj.Name) && rj.Spec == old(rj.Spec)
 //@   ensures [C13] not-deleting-is-a-no-op: !deleting(rj) ==> result0 == rj && result1 == nil && (forall n string :: jobtasks.delReq[n] ==> old(jobtasks.delReq[n]))
 //@   ensures [C13] finalizer-removed-only-when-all-tasks-gone: result0 != nil && meta.contains(rj.Finalizers, F()) && !meta.contains(result0.Finalizers, F()) ==>
 //@        deleting(rj) && (forall k int :: 0 <= k && k < len(rj.Status.Tasks) ==> gone(rj, k))
@@ -214,6 +228,7 @@ package jobcontroller
 //@            (let t = jobtasks.taskCached(rj, rj.Status.Tasks[k].Name) in jobtasks.delReq[jobtasks.taskName(t)] || (jobtasks.taskDelSet(t) && jobtasks.taskDelNs(t) < clock)))
 //@   ensures [C13] never-forced: forall n string :: jobtasks.forceReq[n] ==> old(jobtasks.forceReq[n])
 //@   ensures [C13] cached-job-untouched: *rj == old(*rj)
+//@   ensures [C12,C13] requests-only-grow: forall n string :: old(jobtasks.delReq[n]) ==> jobtasks.delReq[n]
 //@   ensures [C13] returns-a-job-unless-it-fails: result1 == nil ==> result0 != nil && result0.DeletionTimestamp == rj.DeletionTimestamp && result0.Name == rj.Name
 
 // ---- task creation and adoption (C09) ----------------------------------------------------------------------------------------
@@ -268,7 +283,9 @@ package jobcontroller
 //@   ensures [C09,C20] other-errors-are-returned: jobtasks.tcN == old(jobtasks.tcN) + 1 && !jobtasks.tcOK[old(jobtasks.tcN)]
 //@        && createErr(old(jobtasks.tcN)) != 409001 && createErr(old(jobtasks.tcN)) != 900 ==> result2 != nil && result0 == rj && len(result1) == len(tasks)
 //@   ensures [C09] cached-job-untouched: *rj == old(*rj) && (forall k string :: (k in rj.Annotations) == old(k in rj.Annotations))
-//@   ensures [C08,C09] returns-a-job-and-the-same-or-a-new-task-list: result0 != nil && (samearray(result1, tasks) || fresh(result1))
+//@   ensures [C08,C09] returns-a-job-and-the-same-or-a-new-task-list: result0 != nil && result0.Spec == rj.Spec && (samearray(result1, tasks) || fresh(result1))
+//@        && result0.Name == rj.Name && result0.Namespace == rj.Namespace && result0.UID == rj.UID && execution.sameStrs(result0.Finalizers, rj.Finalizers) && result0.DeletionTimestamp == rj.DeletionTimestamp
+//@   ensures [C09] given-list-untouched: forall k int :: 0 <= k && k < len(tasks) ==> tasks[k] == old(tasks[k])
 //@   ensures [C08,C09] the-request-is-for-this-index-and-retry: jobtasks.tcN == old(jobtasks.tcN) + 1 ==> jobtasks.tcJob[old(jobtasks.tcN)] == rj
 //@        && jobtasks.tcRetry[old(jobtasks.tcN)] == index.Retry && jobtasks.tcIndex[old(jobtasks.tcN)] == index.Parallel
 //@   ensures [C08,C09] log-append-only: forall i int :: i < old(jobtasks.tcN) ==> jobtasks.tcRetry[i] == old(jobtasks.tcRetry[i]) && jobtasks.tcIndex[i] == old(jobtasks.tcIndex[i]) && jobtasks.tcJob[i] == old(jobtasks.tcJob[i])
@@ -287,7 +304,7 @@ package jobcontroller
 //@   ensures [C11] phase-terminal-iff-finished: result1 == nil ==> (result0.Status.Phase.IsTerminal() <==> result0.Status.Condition.Finished != nil)
 //@   ensures [C11] start-time-and-tasks-untouched: result1 == nil ==> result0.Status.StartTime == rj.Status.StartTime && result0.Status.CreatedTasks == rj.Status.CreatedTasks
 //@        && len(result0.Status.Tasks) == len(rj.Status.Tasks) && (forall k int :: 0 <= k && k < len(rj.Status.Tasks) ==> result0.Status.Tasks[k] == rj.Status.Tasks[k])
-//@   ensures [C11] identity-kept: result1 == nil ==> result0 != nil && result0.Name == rj.Name && result0.UID == rj.UID && result0.Spec == rj.Spec
+//@   ensures [C11] identity-kept: result1 == nil ==> result0 != nil && result0.Name == rj.Name && result0.Namespace == rj.Namespace && result0.UID == rj.UID && result0.Spec == rj.Spec
 //@        && execution.sameStrs(result0.Finalizers, rj.Finalizers) && result0.DeletionTimestamp == rj.DeletionTimestamp
 //@   ensures [C11] cached-job-untouched: *rj == old(*rj)
 //@   ensures clock >= old(clock)
@@ -307,6 +324,8 @@ package jobcontroller
 //@   modifies clock, elems(tasks), jobtasks.tcN, jobtasks.tcJob, jobtasks.tcRetry, jobtasks.tcIndex, jobtasks.tcOK, jobtasks.tcErr, jobtasks.tcTask, wakeN, wakeKey, wakeAfter
 //@   loop 1 invariant -1 <= rangeindex && rangeindex < len(indexRequests) && rj != nil && jobtasks.tcN >= old(jobtasks.tcN) && clock >= old(clock) && ns(now) <= clock
 //@   loop 1 invariant samearray(tasks, loopentry(tasks)) || fresh(tasks)
+//@   loop 1 invariant rj.Spec == old(rj.Spec) && rj.Name == old(rj.Name) && rj.Namespace == old(rj.Namespace) && rj.UID == old(rj.UID) && execution.sameStrs(rj.Finalizers, old(rj.Finalizers)) && rj.DeletionTimestamp == old(rj.DeletionTimestamp)
+//@   loop 1 invariant len(tasks) >= len(loopentry(tasks)) && (forall k int :: 0 <= k && k < len(loopentry(tasks)) ==> tasks[k] == loopentry(tasks[k]))
 //@   loop 1 invariant forall i int :: {jobtasks.tcIndex[i]} old(jobtasks.tcN) <= i && i < jobtasks.tcN ==> (exists k int :: 0 <= k && k <= rangeindex && jobtasks.tcIndex[i] == indexRequests[k].ParallelIndex
 //@        && jobtasks.tcRetry[i] == indexRequests[k].RetryIndex && (indexRequests[k].Earliest.IsZero() || ns(indexRequests[k].Earliest) <= ns(now)))
 //@   ensures [C08] no-creation-once-killed-or-refused: (rj.Spec.KillTimestamp != nil || hasAdmissionError(rj)) ==> jobtasks.tcN == old(jobtasks.tcN)
@@ -316,26 +335,37 @@ package jobcontroller
 //@   ensures [C08] never-before-the-retry-delay: forall i int :: {jobtasks.tcIndex[i]} old(jobtasks.tcN) <= i && i < jobtasks.tcN ==>
 //@        parallel.latestFin(rj.Status.Tasks, parallel.hashOf(jobtasks.tcIndex[i]), len(rj.Status.Tasks)) + execution.retryDelaySeconds(rj) * 1000000000 <= clock
 //@   ensures [C08] log-append-only: jobtasks.tcN >= old(jobtasks.tcN)
+//@   ensures [C08,C12] returns-a-job-with-the-same-identity-and-spec: result0 != nil && result0.Spec == rj.Spec && result0.Name == rj.Name && result0.Namespace == rj.Namespace && result0.UID == rj.UID
+//@        && result0.DeletionTimestamp == rj.DeletionTimestamp
+//@   ensures [C08,C12] finalizers-kept: execution.sameStrs(result0.Finalizers, rj.Finalizers)
+//@   ensures [C08,C12] no-task-dropped: len(result1) >= len(tasks) && (forall k int :: 0 <= k && k < len(tasks) ==> result1[k] == old(tasks[k]))
+//@   ensures clock >= old(clock)
 
 // ---- one reconcile pass (C08, C12, C13) -----------------------------------------------------------------------------------------
-// syncJobTasks is the fixed sequence list tasks -> syncCreateTasks -> updateTaskRefStatus -> handlePendingTasks -> handleKillJob ->
-// handleForceDeleteKillingTasks -> updateTaskRefStatus; each step has its own contract. The sequence itself is ASSUMED here
-// (temporarily); taskSyncN counts its executions so that the gate in front of it can be stated.
-//@ ghost var taskSyncN Int
-//@ extern func Reconciler.syncJobTasks
-//@   params w, ctx, rj, cfg, trace
-//@   modifies taskSyncN, clock, wakeN, wakeKey, wakeAfter, jobtasks.delReq, jobtasks.forceReq, jobtasks.tcN, jobtasks.tcJob, jobtasks.tcRetry, jobtasks.tcIndex, jobtasks.tcOK, jobtasks.tcErr, jobtasks.tcTask
-//@   ensures taskSyncN == old(taskSyncN) + 1 && clock >= old(clock)
-//@   ensures result0 != nil && result0.Name == rj.Name && result0.Namespace == rj.Namespace && result0.UID == rj.UID && result0.Spec == rj.Spec
+// syncJobTasks: list the Job's recorded tasks from the task cache, create what is due, then reap pending tasks, kill, force
+// delete, and recompute the status. Its contract carries the kill sweep (C12) and the creation discipline (C08) to `sync`.
+//@ pure cachedTask(rj *execution.Job, k int) jobtasks.Task = jobtasks.taskCached(rj, rj.Status.Tasks[k].Name)
+//@ func Reconciler.syncJobTasks
+//@   tags C08, C12
+//@   requires w != nil && rj != nil && cfg != nil
+//@   assumes template-was-defaulted-by-the-mutating-webhook: rj.Spec.Template != nil
+//@   modifies clock, wakeN, wakeKey, wakeAfter, jobtasks.delReq, jobtasks.forceReq, jobtasks.tcN, jobtasks.tcJob, jobtasks.tcRetry, jobtasks.tcIndex, jobtasks.tcOK, jobtasks.tcErr, jobtasks.tcTask
+//@   loop 1 invariant -1 <= rangeindex && rangeindex < len(rj.Status.Tasks) && fresh(tasks)
+//@   loop 1 invariant forall j int :: {cachedTask(rj, j)} 0 <= j && j <= rangeindex && cachedTask(rj, j) != nil ==> inTasks(tasks, cachedTask(rj, j))
+//@   ensures [C12] identity-kept: result0 != nil && result0.Name == rj.Name && result0.Namespace == rj.Namespace && result0.UID == rj.UID && result0.Spec == rj.Spec
 //@        && execution.sameStrs(result0.Finalizers, rj.Finalizers) && result0.DeletionTimestamp == rj.DeletionTimestamp
-//@   ensures result1 != nil ==> result0 == rj
+//@   ensures [C12] every-live-task-is-deleted-once-the-kill-timestamp-has-passed: result1 == nil && killDueAt(rj, old(clock)) ==>
+//@        (forall j int :: {cachedTask(rj, j)} 0 <= j && j < len(rj.Status.Tasks) && cachedTask(rj, j) != nil && unfinished(cachedTask(rj, j)) && notDeleting(cachedTask(rj, j))
+//@             ==> jobtasks.delReq[jobtasks.taskName(cachedTask(rj, j))])
+//@   ensures [C08] creation-log-append-only: jobtasks.tcN >= old(jobtasks.tcN)
+//@   ensures clock >= old(clock)
 
 //@ func Reconciler.syncJobStatusFromTaskRefs
 //@   tags C11, C13
 //@   requires w != nil && rj != nil && rj.Spec.Template != nil
 //@   modifies clock, wakeN, wakeKey, wakeAfter
 //@   ensures [C11] error-returns-input: result1 != nil ==> result0 == rj
-//@   ensures [C11,C13] identity-kept: result1 == nil ==> result0 != nil && result0.Name == rj.Name && result0.UID == rj.UID && result0.Spec == rj.Spec
+//@   ensures [C11,C13] identity-kept: result1 == nil ==> result0 != nil && result0.Name == rj.Name && result0.Namespace == rj.Namespace && result0.UID == rj.UID && result0.Spec == rj.Spec
 //@        && execution.sameStrs(result0.Finalizers, rj.Finalizers) && result0.DeletionTimestamp == rj.DeletionTimestamp
 //@   ensures [C11] phase-terminal-iff-finished: result1 == nil ==> (result0.Status.Phase.IsTerminal() <==> result0.Status.Condition.Finished != nil)
 //@   ensures clock >= old(clock)
@@ -344,8 +374,10 @@ package jobcontroller
 //@   tags C08, C12, C13
 //@   requires w != nil && w.client != nil && rj != nil && cfg != nil
 //@   assumes template-was-defaulted-by-the-mutating-webhook: rj.Spec.Template != nil
-//@   modifies taskSyncN, clock, wakeN, wakeKey, wakeAfter, jobtasks.delReq, jobtasks.forceReq, jobtasks.tcN, jobtasks.tcJob, jobtasks.tcRetry, jobtasks.tcIndex, jobtasks.tcOK, jobtasks.tcErr, jobtasks.tcTask, jwN, jwKind, jwObj, jwOK, jwName
-//@   ensures [C08,C12] tasks-are-reconciled-iff-started-and-not-deleted: taskSyncN == old(taskSyncN) + ((job.IsStarted(rj) && !deleting(rj)) ? 1 : 0)
+//@   modifies clock, wakeN, wakeKey, wakeAfter, jobtasks.delReq, jobtasks.forceReq, jobtasks.tcN, jobtasks.tcJob, jobtasks.tcRetry, jobtasks.tcIndex, jobtasks.tcOK, jobtasks.tcErr, jobtasks.tcTask, jwN, jwKind, jwObj, jwOK, jwName
+//@   ensures [C12] started-job-past-its-kill-timestamp-has-every-live-task-deleted: result1 == nil && job.IsStarted(rj) && !deleting(rj) && killDueAt(rj, old(clock)) ==>
+//@        (forall j int :: {cachedTask(rj, j)} 0 <= j && j < len(rj.Status.Tasks) && cachedTask(rj, j) != nil && unfinished(cachedTask(rj, j)) && notDeleting(cachedTask(rj, j))
+//@             ==> jobtasks.delReq[jobtasks.taskName(cachedTask(rj, j))])
 //@   ensures [C08] no-task-created-for-an-unstarted-or-deleted-job: !(job.IsStarted(rj) && !deleting(rj)) ==> jobtasks.tcN == old(jobtasks.tcN)
 //@   ensures [C13] ttl-cleanup-is-considered-on-every-pass: result1 == nil && !deleting(result0) && result0.Status.Condition.Finished != nil
 //@        && finishNs(result0) + job.ttlSeconds(result0, cfg) * 1000000000 <= old(clock)
